@@ -160,8 +160,16 @@ func ReportElement(dbStream io.Reader, rec ReportElementConfig) error {
 	if err != nil {
 		return err
 	}
+	// visit the nodes in name order so that equal values are reported in a
+	// stable order instead of the map iteration order
+	names := make([]string, 0, len(nl))
+	for name := range nl {
+		names = append(names, name)
+	}
+	sort.Strings(names)
 	var list []shared.Element
-	for name, node := range nl {
+	for _, name := range names {
+		node := nl[name]
 		for _, el := range node.Elements {
 			if el.Name == rec.ElementName {
 				list = append(list, shared.NewElement(name, el.Value))
